@@ -217,14 +217,19 @@ func runPrograms(args []string) int {
 		rng := rand.New(rand.NewSource(*perturbSeed))
 		hooks.Gate = func(obj any, point string) {
 			mu.Lock()
-			c := rng.Intn(16)
+			c := rng.Intn(32)
 			d := rng.Intn(50)
 			mu.Unlock()
 			switch {
-			case c < 6:
+			case c < 12:
 				runtime.Gosched()
-			case c < 8:
+			case c < 16:
 				time.Sleep(time.Duration(d) * time.Microsecond)
+			case c == 16 || (c < 20 && point == "proc.exec"):
+				// now and then hold a goroutine back for long enough to let others overtake it
+				// (more often where a process is about to start: a late starter is the
+				// interesting schedule for everything that waits for "the previous process")
+				time.Sleep(time.Duration(d*40) * time.Microsecond)
 			}
 		}
 	}
